@@ -423,7 +423,11 @@ func variantPlan(v int) writerPlan {
 
 func runC18(rc *RunCtx) {
 	t := rc.Plan
-	mode := t.Choose(3) // 0 random plan, 1 enumerated offset on the fixed corpus, 2 close fault on the fixed corpus
+	mode := t.Choose(8) // 1 enumerated offset on the fixed corpus, 2 close fault on the fixed corpus, 7 command stage, else random plan
+	if mode == 7 {
+		c18Command(rc, t)
+		return
+	}
 	var p writerPlan
 	w := simrt.NewSimWriteCloser()
 	faultKind := "write"
